@@ -75,14 +75,14 @@ Definition choose (explicit : option cert) (m : list (use * cert)) : list cert :
   match explicit with Some c => [c] | None => enc_certs m end.
 Definition first_good (cs : list cert) : option cert := find is_good cs.
 
-(* Server._authn_response, PEFIM arm: the identity goes into one advice assertion built WITHOUT Issuer, the main
+(* Server._authn_response, PEFIM arm: the identity goes into one advice assertion built with the IdP as Issuer (fix 2aa196ec; the pinned snapshot built it WITHOUT Issuer), the main
    assertion carries no attributes, encrypted_advice_attributes and ..._self_contained are forced *)
 Definition effective (x : input) : input :=
   match i_entry x with
   | Entity => x
   | Server =>
       if pefim x then
-        mkinput Server (sr x) (sa x) (ea x) true true true (md x) (cert_asrt x) (cert_adv x) (subj x) [] [(false, attrs x)]
+        mkinput Server (sr x) (sa x) (ea x) true true true (md x) (cert_asrt x) (cert_adv x) (subj x) [] [(true, attrs x)]
       else
         mkinput Server (sr x) (sa x) (ea x) (eadv x) (sc x) false (md x) (cert_asrt x) (cert_adv x) (subj x) (attrs x) []
   end.
